@@ -48,8 +48,11 @@ def fatCopyStart (g : Geom) (copy : Nat) : Nat := g.fatStart + copy * g.fatSizeB
 def rootStart (g : Geom) : Nat := (g.reserved + g.fats * g.spf) * g.bps
 /-- size of the fixed root region in bytes (whole sectors) -/
 def rootSizeBytes (g : Geom) : Nat := g.rootDirSectors * g.bps
-/-- bytes of the fixed root region that hold directory slots (`rootEntries * 32`) -/
-def rootDirBytes (g : Geom) : Nat := g.rootEntries * 32
+/-- Bytes of the fixed root region that hold directory slots. The specification sizes the region in whole sectors and
+    says `BPB_RootEntCnt * 32` "should" be a multiple of the sector size; for volumes where it is not (e.g. 16 entries,
+    4096-byte sectors — the library formats such volumes on request and then uses the whole sector) the slots of the
+    whole region are taken, so that decoder and library agree on off-specification volumes. -/
+def rootDirBytes (g : Geom) : Nat := g.rootDirSectors * g.bps
 def dataStartSector (g : Geom) : Nat := g.reserved + g.fats * g.spf + g.rootDirSectors
 def dataStart (g : Geom) : Nat := g.dataStartSector * g.bps
 def clusterSize (g : Geom) : Nat := g.bps * g.spc
@@ -392,6 +395,16 @@ def oemChar (lower : Bool) (b : Nat) : Char :=
 def trimTrailingSpaces (l : List Nat) : List Nat :=
   (l.reverse.dropWhile (· == 0x20)).reverse
 
+/-- the bytes of the display form `BASE.EXT` (0x05 → 0xE5, case flags applied to ASCII letters, OEM bytes kept) -/
+def shortDisplayBytes (name11 : List Nat) (ntRes : Nat) : List Nat :=
+  let name11 := match name11 with
+    | 0x05 :: rest => 0xE5 :: rest
+    | l => l
+  let low (on : Bool) (b : Nat) : Nat := if on ∧ 0x41 ≤ b ∧ b ≤ 0x5A then b + 32 else b
+  let base := (trimTrailingSpaces (name11.take 8)).map (low (ntRes / 8 % 2 == 1))
+  let ext := (trimTrailingSpaces (name11.drop 8)).map (low (ntRes / 16 % 2 == 1))
+  if ext.isEmpty then base else base ++ 0x2E :: ext
+
 /-- display form of an 11-byte short name with the NT case flags of byte 12 (bit 3: base, bit 4: extension) -/
 def shortDisplay (name11 : List Nat) (ntRes : Nat) : String :=
   let name11 := match name11 with
@@ -614,7 +627,7 @@ def rootMeta (g : Geom) : EntryMeta :=
 
 /-- decode the directory at `loc`: its dot entries and children. `fuel` bounds the nesting depth; the set of
     visited first clusters bounds the number of directories by the cluster count. -/
-def decodeDir (g : Geom) (img : Img) : (fuel : Nat) → (path : String) → (loc : DirLoc) →
+def decodeDir (g : Geom) (img : Img) (withContent : Bool) : (fuel : Nat) → (path : String) → (loc : DirLoc) →
     DecM (List EntryMeta × List Node)
   | 0, path, _ => throw s!"directory '{path}' is nested deeper than 64 levels"
   | fuel + 1, path, loc => do
@@ -627,17 +640,18 @@ def decodeDir (g : Geom) (img : Img) : (fuel : Nat) → (path : String) → (loc
         if st.seenDirs.contains e.firstCluster then
           throw s!"cross-link directory '{path}/{e.name}' starts at cluster {e.firstCluster} which is already a directory"
         set { st with seenDirs := st.seenDirs.insert e.firstCluster }
-        let (dots, ch) ← decodeDir g img fuel s!"{path}/{e.name}" (.chain e.firstCluster)
+        let (dots, ch) ← decodeDir g img withContent fuel s!"{path}/{e.name}" (.chain e.firstCluster)
         pure (Node.dir e dots ch)
+      else if !withContent then pure (Node.file e ByteArray.empty)
       else
         match fileContent g img e with
         | .ok c => pure (Node.file e c)
         | .error m => throw s!"{m} (in directory '{path}')"
     pure (pd.dots, children)
 
-def decodeTreeG (g : Geom) (img : Img) : Except String Node := do
+def decodeTreeG (g : Geom) (img : Img) (withContent : Bool := true) : Except String Node := do
   let init : DecState := { seenDirs := if g.fatBits = 32 then ({} : Std.HashSet Nat).insert g.rootCluster else {} }
-  let ((dots, ch), _) ← (decodeDir g img 65 "" (rootLoc g)).run init
+  let ((dots, ch), _) ← (decodeDir g img withContent 65 "" (rootLoc g)).run init
   return Node.dir (rootMeta g) dots ch
 
 /-- the whole tree of a volume; the root node has a synthetic `EntryMeta` with name `""` -/
